@@ -92,6 +92,20 @@ impl Pad for Box<u8> {
         Box::new(role as u8)
     }
 }
+impl Pad for u128 {
+    fn mk(role: u64) -> Self {
+        ((role as u128) << 100) | 0x1234_5678_9abc_def0_1122_3344
+    }
+}
+/// over-aligned payload (what SIMD types or cache-line padded values look like)
+#[derive(Clone, PartialEq)]
+#[repr(align(64))]
+struct Align64(u8);
+impl Pad for Align64 {
+    fn mk(role: u64) -> Self {
+        Align64(role as u8 ^ 0x5a)
+    }
+}
 impl Pad for (u8, u16) {
     fn mk(role: u64) -> Self {
         (role as u8, 0xbeef)
@@ -146,7 +160,7 @@ macro_rules! shape {
             }
 
             pub(super) fn sizes() -> (usize, usize) {
-                (std::mem::size_of::<Parsed<T, E>>(), std::mem::size_of::<Parsed<(), E>>())
+                (std::mem::size_of::<Parsed<T, E>>(), std::mem::align_of::<Parsed<T, E>>())
             }
 
             pub(super) fn cells() -> Vec<Cell15> {
@@ -625,6 +639,8 @@ shape!(big136, "shape=[u64;16]:", [u64; 16]);
 shape!(big328, "shape=[u64;40]:", [u64; 40]);
 shape!(heap, "shape=String:", String);
 shape!(boxed, "shape=Box:", Box<u8>);
+shape!(wide, "shape=u128:", u128);
+shape!(aligned, "shape=align64:", Align64);
 
 fn cells() -> Vec<Cell15> {
     let mut v = plain::cells();
@@ -633,6 +649,8 @@ fn cells() -> Vec<Cell15> {
     v.extend(big328::cells());
     v.extend(heap::cells());
     v.extend(boxed::cells());
+    v.extend(wide::cells());
+    v.extend(aligned::cells());
     v
 }
 
@@ -644,6 +662,8 @@ fn shape_sizes() -> Vec<(&'static str, usize, usize)> {
         ("[u64;40]", big328::sizes().0, big328::sizes().1),
         ("String", heap::sizes().0, heap::sizes().1),
         ("Box", boxed::sizes().0, boxed::sizes().1),
+        ("u128", wide::sizes().0, wide::sizes().1),
+        ("align64", aligned::sizes().0, aligned::sizes().1),
     ]
 }
 
@@ -757,7 +777,7 @@ impl Monitor for C15 {
                     format!("shape:{}", name),
                     J::obj()
                         .set("size_of_Parsed<T,E>", J::u(parsed))
-                        .set("size_of_Parsed<(),E>", J::u(parsed_unit_value)),
+                        .set("align_of_Parsed<T,E>", J::u(parsed_unit_value)),
                 );
                 rep.inc("shapes");
             }
